@@ -88,7 +88,8 @@ theorem C15_answers : ∀ d : Dir, Inv d → (run d none).answers = some true :=
 /-- Every state the property lists satisfies the invariant. -/
 theorem C15_priors_inv : ∀ n ∈ ["absent", "complete", "other-version", "other-data", "meta-missing",
     "meta-truncated", "meta-garbage", "index-missing", "index-damaged", "index-emptied",
-    "stale-wrong-hash", "stale-no-hash", "stale-null-hash"],
+    "stale-wrong-hash", "stale-no-hash", "stale-null-hash", "olddocs-wrong-hash", "olddocs-other-version",
+    "olddocs-no-hash"],
     ∃ d, prior n = some d ∧ Inv d := by
   decide
 
